@@ -33,12 +33,16 @@ class Calc(object):
     @staticmethod
     def t_CONST16(t):
         r"""0x[0-9a-fA-F]+"""
+        if len(t.value) > 100:
+            raise ParseError('integer literal of %d characters is too long' % len(t.value))
         t.value = int(t.value, 16)
         return t
 
     @staticmethod
     def t_CONST10(t):
         r"""\d+"""
+        if len(t.value) > 100:
+            raise ParseError('integer literal of %d characters is too long' % len(t.value))
         t.value = int(t.value)
         return t
 
